@@ -44,7 +44,7 @@ class OutputGroup(Output):
 
     def write_list(self, list_name, list_array, metadata=None):
         arr = np.array(list_array)
-        self.write_array(list_name, arr)
+        self.write_array(list_name, arr, metadata)
 
     def write_scalar(self, scalar_name, scalar, metadata=None):
         raise NotImplementedError
